@@ -2,7 +2,7 @@
    Statements only; every proof is [exact <lemma of MdQueryProofs>].
    MdQuery.v models mdquery.py; the decoding side is Frame.v's decode_message
    (info_only = true / false) and scan_info (generate_bufr_message, info_only). *)
-From PBK Require Import Base Bits BitsProofs Frame FrameProofs MdQuery MdQueryProofs.
+From PBK Require Import Base Bits BitsProofs Frame FrameProofs MdQuery MdQueryProofs MdInfoContent.
 
 (* the expression syntax, as coded *)
 Theorem C17_md_parse_spec :
@@ -93,6 +93,21 @@ Theorem C17_info_skips_data_content : forall dd props h c c' rest sec props' r',
               (length r' <= length rest -> r'' = r').
 Proof. exact info_skips_data_content. Qed.
 Print Assumptions C17_info_skips_data_content.
+
+(* (3) whole messages: replace any bytes c lying after the 4-octet header of
+   section 4 (a = everything up to there, idx = where the signature was found)
+   by other bytes of the same number: same sections, same attributes — for any
+   template decoder, no hypothesis on it *)
+Theorem C17_info_independent_of_data_content :
+  forall (dd : list (pname * pvalue) -> reader -> result (bits * reader)) sig ign a c c' z m idx,
+  length c = length c' ->
+  decode_message dd sig true ign (a ++ c ++ z) = Ok m ->
+  match sig with Some g => find_sig g a = Some idx | None => idx = 0%nat end ->
+  (sections_nbits (filter lt4 (m_sections m)) + 32 <= 8 * (length a - idx))%nat ->
+  exists m', decode_message dd sig true ign (a ++ c' ++ z) = Ok m' /\
+             m_sections m' = m_sections m /\ m_props m' = m_props m.
+Proof. exact info_independent_of_data_content. Qed.
+Print Assumptions C17_info_independent_of_data_content.
 
 (* scanning in metadata-only mode: every message's bytes come from its declared
    total length, and the scan resumes right after them *)
